@@ -209,9 +209,7 @@ def _map_or_else(ex, args, f):
     o = args[0]
     if o.variant == "Ok":
         fn = deref_all(ex, args[2])
-        if isinstance(fn, Closure):
-            return ex.call_closure(fn, [o.fields[0]])
-        raise Unsupported("map_or_else with fn item")
+        return ex.call_closure(fn, [o.fields[0]])          # closures and function items alike
     return ex.call_closure(deref_all(ex, args[1]), [o.fields[0]])
 
 
@@ -284,7 +282,7 @@ def _find(ex, args, f):
         it.i += 1
         hit = ex.call_closure(clo, [Ref(Cell(r))])
         if ex.decide(hit.e):
-            return some(r)
+            return some(ex.read_ref(r) if getattr(it, "owned", False) and isinstance(r, Ref) else r)
     return NONE
 
 
